@@ -156,10 +156,16 @@ func verifyHashRuleSliceInfos(locations []int, slices []string) (map[int]int, er
 		return nil, errors.ErrLocationsCount
 	}
 	for i := 0; i < len(locations); i++ {
+		if locations[i] < 0 {
+			return nil, fmt.Errorf("invalid location %d, must not be negative", locations[i])
+		}
 		for j := 0; j < locations[i]; j++ {
 			tableToSlice[j+sumTables] = i
 		}
 		sumTables += locations[i]
+	}
+	if sumTables == 0 {
+		return nil, fmt.Errorf("invalid locations, no sub table")
 	}
 	return tableToSlice, nil
 }
